@@ -120,3 +120,86 @@ func init() {
 		return tuple{iface{t: pt, v: cell}, err}
 	}
 }
+
+// ---- the same runtime reached directly (protoregistry / proto), not through ProtoSerializer ----
+//
+// Code that looks a message type up itself (protoregistry.GlobalTypes.FindMessageByName), allocates it
+// (MessageType.New().Interface()) and decodes with proto.Unmarshal - what ProtoSerializer.Deserialize does
+// inside - is modelled with two tag types: a MessageType value carries the module's named struct type, a
+// protoreflect.Message value carries the allocated cell.
+
+type protoTag struct {
+	types.Type
+	kind string // "MessageType" or "Message"
+}
+
+func (t *protoTag) Underlying() types.Type { return t }
+func (t *protoTag) String() string         { return "protobuf-model-" + t.kind }
+
+var protoMTTag, protoMsgTag = &protoTag{kind: "MessageType"}, &protoTag{kind: "Message"}
+
+// protoTagMethod dispatches an interface method call on one of the model's tag values.
+func protoTagMethod(tag *protoTag, v Value, name string) hostFn {
+	return func(e *Exec, fr *frame, a []Value) Value {
+		switch {
+		case tag == protoMTTag && name == "New":
+			n := v.(*types.Named)
+			cell := new(Value)
+			*cell = e.zero(n)
+			return iface{t: protoMsgTag, v: protoMsgVal{n, cell}}
+		case tag == protoMsgTag && name == "Interface":
+			m := v.(protoMsgVal)
+			return iface{t: types.NewPointer(m.n), v: m.cell}
+		}
+		e.unsupported("protobuf runtime model: method %s on a %s", name, tag.kind)
+		return nil
+	}
+}
+
+type protoMsgVal struct {
+	n    *types.Named
+	cell *Value
+}
+
+func init() {
+	intrinsics["(*google.golang.org/protobuf/reflect/protoregistry.Types).FindMessageByName"] = func(e *Exec, fr *frame, a []Value) Value {
+		name, ok := a[len(a)-1].(string)
+		if !ok {
+			e.unsupported("FindMessageByName with a symbolic name")
+		}
+		n := e.w.protoTypes()[name]
+		if n == nil {
+			return tuple{iface{}, opaqueErr(e, fr, []Value{"proto: not found: " + name})}
+		}
+		return tuple{iface{t: protoMTTag, v: n}, iface{}}
+	}
+	intrinsics["google.golang.org/protobuf/proto.Unmarshal"] = func(e *Exec, fr *frame, a []Value) Value {
+		n, i := e.protoMsgType(a[1])
+		if n == nil {
+			e.unsupported("proto.Unmarshal into a value outside the protobuf runtime model")
+		}
+		f := e.w.prog.LookupMethod(i.t, nil, "UnmarshalVT")
+		if f == nil {
+			e.unsupported("no UnmarshalVT for %s", i.t)
+		}
+		return e.call(fr, 0, f, []Value{i.v, a[0]})
+	}
+	intrinsics["google.golang.org/protobuf/proto.Marshal"] = func(e *Exec, fr *frame, a []Value) Value {
+		n, i := e.protoMsgType(a[0])
+		if n == nil {
+			e.unsupported("proto.Marshal of a value outside the protobuf runtime model")
+		}
+		f := e.w.prog.LookupMethod(i.t, nil, "MarshalVT")
+		if f == nil {
+			e.unsupported("no MarshalVT for %s", i.t)
+		}
+		return e.call(fr, 0, f, []Value{i.v})
+	}
+	intrinsics["google.golang.org/protobuf/proto.MessageName"] = func(e *Exec, fr *frame, a []Value) Value {
+		n, _ := e.protoMsgType(a[0])
+		if n == nil {
+			e.unsupported("proto.MessageName of a value outside the protobuf runtime model")
+		}
+		return n.Obj().Pkg().Name() + "." + n.Obj().Name()
+	}
+}
